@@ -273,15 +273,21 @@ func refQueries(l *SubList) [][]string {
 }
 
 // Notif is a gnmi.Notification as scenario data (paths only; values are irrelevant to C06).
+//
+// Atomic marks the notification as one atomic container (gnmi.Notification.atomic): it is stored
+// and delivered as ONE unit, but WHETHER it is offered to a subscriber follows the same rule as
+// for any other notification (some prefix+path of a contained update or delete agrees with one of
+// the subscriber's paths) - the property makes no exception for it.
 type Notif struct {
 	Updates []GPath `json:"updates,omitempty"`
 	Deletes []GPath `json:"deletes,omitempty"`
+	Atomic  bool    `json:"atomic,omitempty"`
 }
 
 func (n *Notif) entries() int { return len(n.Updates) + len(n.Deletes) }
 
 func (n *Notif) proto(ts int64, prefix *pb.Path) *pb.Notification {
-	out := &pb.Notification{Timestamp: ts, Prefix: prefix}
+	out := &pb.Notification{Timestamp: ts, Prefix: prefix, Atomic: n.Atomic}
 	for i := range n.Updates {
 		out.Update = append(out.Update, &pb.Update{
 			Path: n.Updates[i].proto(),
